@@ -327,3 +327,746 @@ def gen_type(rng, depth=4):
         td = gen_typedef(rng)
         return ["@ext", td, [gen_arg(rng, depth - 1) for _ in range(len(td[4]))]]
     return ["@opaque", rng.choice(NAMES), rng.choice(["@C", "@A"]), [gen_arg(rng, depth - 1) for _ in range(rng.randint(0, 3))], rng.choice(EXTS)]
+
+
+# ----------------------------------------------------------------------------- constant values (C14, C05)
+#
+# Value specs (JSON-able) are the nested-list form of the s-expressions of lean/HugrVerif/Bridge/Val.lean:
+#   plain values  ["@vsum", tag, T, [V…]] | ["@vtuple", [V…]] | ["@vfn", [T…], [T…], [req…], ["@json", doc]]
+#                 | ["@vext", name, T, ["@json", payload], [ext…]]
+#   expressions   the same with expressions as children, the helpers (recorded as the helper used)
+#                 ["@some", [E…]] | ["@none", [T…]] | ["@left", [E…], [T…]] | ["@right", [T…], [E…]]
+#                 | ["@unitsum", tag, size] | ["@bool", b] | "@unit",
+#                 the std classes ["@int", v, width] | ["@float", "repr"] | ["@string", s]
+#                 | ["@array", [E…], T] | ["@list", [E…], T] | ["@sarray", [E…], T, name],
+#                 and the function recipe ["@fndfg", [T…], perm, [req…]]: a `Dfg(*ins)` built with the real builder
+#                 whose outputs are its inputs permuted by `perm` (printed as a `vfn` with the real body).
+# JSON is wrapped as ["@json", value] because a JSON string may itself start with '@'.
+
+
+def cjson(v):
+    """Canonical JSON value: floats with an integral value (|v| < 1e15) as ints, non-finite as None."""
+    if isinstance(v, float):
+        if v != v or v in (float("inf"), float("-inf")):
+            return None
+        if v == int(v) and abs(v) < 1e15:
+            return int(v)
+        return v
+    if isinstance(v, list):
+        return [cjson(x) for x in v]
+    if isinstance(v, dict):
+        return {str(k): cjson(x) for k, x in v.items()}
+    return v
+
+
+def cjson_sx(v):
+    """Canonical JSON -> sexp tree with sorted object keys (what the Lean drivers print via Json.canon)."""
+    v = cjson(v)
+    if isinstance(v, dict):
+        return [A("o")] + [[k, cjson_sx(v[k])] for k in sorted(v)]
+    if isinstance(v, list):
+        return [A("a")] + [cjson_sx(x) for x in v]
+    return json_to_sx(v)
+
+
+def float_json(text: str):
+    """JSON form of the Python float written `text` as pydantic dumps it (non-finite -> null)."""
+    return cjson(float(text))
+
+
+def fn_body(ins, perm, reqs=()):
+    """The real Dfg for the recipe ["@fndfg", ins, perm, reqs] -> Hugr."""
+    from hugr.build.dfg import Dfg
+
+    d = Dfg(*[build_type(t) for t in ins])
+    if reqs:
+        d.parent_op._extension_delta = list(reqs)
+    inputs = d.inputs()
+    d.set_outputs(*[inputs[i] for i in perm])
+    return d.hugr
+
+
+def _hugr_json(h):
+    return json.loads(h._to_serial().model_dump_json())
+
+
+def build_value(s):
+    """Value/expression spec -> the real hugr-py object, built with the constructor the spec names."""
+    from hugr import val
+
+    if s == "@unit":
+        return val.Unit
+    k = s[0]
+    if k == "@vsum":
+        return val.Sum(s[1], build_type(s[2]), [build_value(x) for x in s[3]])
+    if k == "@vtuple":
+        return val.Tuple(*[build_value(x) for x in s[1]])
+    if k == "@vfn":
+        from hugr._serialization.serial_hugr import SerialHugr
+        from hugr.hugr import Hugr
+
+        return val.Function(Hugr._from_serial(SerialHugr(**s[4][1])))
+    if k == "@fndfg":
+        return val.Function(fn_body(s[1], s[2], s[3] if len(s) > 3 else ()))
+    if k == "@vext":
+        return val.Extension(s[1], build_type(s[2]), s[3][1], list(s[4]))
+    if k == "@some":
+        return val.Some(*[build_value(x) for x in s[1]])
+    if k == "@none":
+        return val.None_(*[build_type(t) for t in s[1]])
+    if k == "@left":
+        return val.Left([build_value(x) for x in s[1]], [build_type(t) for t in s[2]])
+    if k == "@right":
+        return val.Right([build_type(t) for t in s[1]], [build_value(x) for x in s[2]])
+    if k == "@unitsum":
+        return val.UnitSum(s[1], s[2])
+    if k == "@bool":
+        return val.bool_value(bool(s[1]))
+    if k == "@int":
+        from hugr.std.int import IntVal
+
+        return IntVal(s[1], s[2])
+    if k == "@float":
+        from hugr.std.float import FloatVal
+
+        return FloatVal(float(s[1]))
+    if k == "@string":
+        from hugr.std.prelude import StringVal
+
+        return StringVal(s[1])
+    if k == "@array":
+        from hugr.std.collections.array import ArrayVal
+
+        return ArrayVal([build_value(x) for x in s[1]], build_type(s[2]))
+    if k == "@list":
+        from hugr.std.collections.list import ListVal
+
+        return ListVal([build_value(x) for x in s[1]], build_type(s[2]))
+    if k == "@sarray":
+        from hugr.std.collections.static_array import StaticArrayVal
+
+        return StaticArrayVal([build_value(x) for x in s[1]], build_type(s[2]), s[3])
+    raise ValueError(s)
+
+
+def value_to_spec(v, body=True):
+    """Real value object -> plain value spec (std classes via `to_value()`).  With body=False the body
+    document of a function value is elided (the atom `body`), as the Lean drivers print it."""
+    from hugr import val
+
+    if isinstance(v, val.Tuple):
+        return ["@vtuple", [value_to_spec(x, body) for x in v.vals]]
+    if isinstance(v, val.Sum):
+        return ["@vsum", v.tag, type_to_spec(v.typ), [value_to_spec(x, body) for x in v.vals]]
+    if isinstance(v, val.Function):
+        t = v.type_()
+        return [
+            "@vfn", [type_to_spec(x) for x in t.input], [type_to_spec(x) for x in t.output], list(t.runtime_reqs),
+            ["@json", _hugr_json(v.body)] if body else "@body",
+        ]
+    if isinstance(v, val.Extension):
+        # the payload may hold pydantic models (std collections): take it as the JSON it serialises to
+        import hugr._serialization.ops as sops
+
+        payload = json.loads(sops.CustomConst(c=v.name, v=v.val).model_dump_json())["v"]
+        return ["@vext", v.name, type_to_spec(v.typ), ["@json", payload], list(v.extensions)]
+    if hasattr(v, "to_value"):
+        return value_to_spec(v.to_value(), body)
+    raise TypeError(v)
+
+
+def value_to_sx(s):
+    """Value/expression spec -> sexp tree (Bridge/Val.lean syntax).  `@fndfg` recipes are printed as `vfn`
+    with the document the real builder produces; JSON in canonical form."""
+    if s == "@unit":
+        return A("unit")
+    if s == "@body":
+        return A("body")
+    k = s[0]
+    vs = lambda xs: [value_to_sx(x) for x in xs]  # noqa: E731
+    ts = lambda xs: [spec_to_sx(t) for t in xs]  # noqa: E731
+    if k == "@vsum":
+        return [A("vsum"), s[1], spec_to_sx(s[2]), vs(s[3])]
+    if k == "@vtuple":
+        return [A("vtuple"), vs(s[1])]
+    if k == "@vfn":
+        return [A("vfn"), ts(s[1]), ts(s[2]), list(s[3]), value_to_sx(s[4]) if s[4] == "@body" else cjson_sx(s[4][1])]
+    if k == "@fndfg":
+        reqs = list(s[3]) if len(s) > 3 else []
+        return [A("vfn"), ts(s[1]), ts([s[1][i] for i in s[2]]), reqs, cjson_sx(_hugr_json(fn_body(s[1], s[2], reqs)))]
+    if k == "@vext":
+        return [A("vext"), s[1], spec_to_sx(s[2]), cjson_sx(s[3][1]), list(s[4])]
+    if k == "@some":
+        return [A("some"), vs(s[1])]
+    if k == "@none":
+        return [A("none"), ts(s[1])]
+    if k == "@left":
+        return [A("left"), vs(s[1]), ts(s[2])]
+    if k == "@right":
+        return [A("right"), ts(s[1]), vs(s[2])]
+    if k == "@unitsum":
+        return [A("unitsum"), s[1], s[2]]
+    if k == "@bool":
+        return [A("bool"), A("true" if s[1] else "false")]
+    if k == "@int":
+        return [A("int"), s[1], s[2]]
+    if k == "@float":
+        return [A("float"), cjson_sx(float_json(s[1]))]
+    if k == "@string":
+        return [A("string"), s[1]]
+    if k == "@array":
+        return [A("array"), vs(s[1]), spec_to_sx(s[2])]
+    if k == "@list":
+        return [A("list"), vs(s[1]), spec_to_sx(s[2])]
+    if k == "@sarray":
+        return [A("sarray"), vs(s[1]), spec_to_sx(s[2]), s[3]]
+    raise ValueError(s)
+
+
+def value_sexp(s) -> str:
+    return dumps(value_to_sx(s))
+
+
+# ---- std type definitions read from the bundled extension files (not through the hugr classes)
+
+_STD_FILES = {
+    "int": ("arithmetic/int/types", "int"),
+    "float64": ("arithmetic/float/types", "float64"),
+    "string": ("prelude", "string"),
+    "array": ("collections/array", "array"),
+    "list": ("collections/list", "List"),
+    "static_array": ("collections/static_array", "static_array"),
+}
+_STD_DEFS: dict = {}
+
+
+def _param_json_to_spec(p):
+    tp = p["tp"]
+    if tp == "Type":
+        return ["@ptype", "@" + p["b"]]
+    if tp == "BoundedNat":
+        return ["@pnat", "@none" if p.get("bound") is None else p["bound"]]
+    if tp == "String":
+        return "@pstr"
+    if tp == "List":
+        return ["@plist", _param_json_to_spec(p["param"])]
+    if tp == "Tuple":
+        return ["@ptuple", [_param_json_to_spec(x) for x in p["params"]]]
+    if tp == "Extensions":
+        return "@pexts"
+    raise ValueError(p)
+
+
+def std_def(key):
+    """(`@def` spec, raw JSON type definition, extension name) of a std type, from the JSON file."""
+    if key not in _STD_DEFS:
+        import os
+        from pathlib import Path
+
+        repo = Path(os.environ.get("HUGR_REPO", "/repo"))
+        file, name = _STD_FILES[key]
+        doc = json.loads((repo / "hugr-py/src/hugr/std/_json_defs" / (file + ".json")).read_text())
+        td = doc["types"][name]
+        b = td["bound"]
+        bs = ["@explicit", "@" + b["bound"]] if b["b"] == "Explicit" else ["@from", *b["indices"]]
+        spec = ["@def", doc["name"], td["name"], td["description"], [_param_json_to_spec(p) for p in td["params"]], bs]
+        _STD_DEFS[key] = (spec, td, doc["name"])
+    return _STD_DEFS[key]
+
+
+def std_type(key, *args):
+    return ["@ext", std_def(key)[0], list(args)]
+
+
+# ---- random values
+
+PAYLOADS = [None, 0, {"a": [1, "x"]}, "p", [True, {"k": None}], {"é": -3, "b": {"c": []}}, 2**70]
+STRINGS = ["", "s", "naïve", 'a"b\\c', "名"]
+FLOATS = ["0.0", "1.5", "-2.25", "1e+16", "3.0", "inf", "nan", "-0.0", "1e-07"]
+
+
+def gen_vtype(rng, depth=3):
+    """Types for constants: every type here can be serialised (no malformed extension types)."""
+    k = rng.randrange(8) if depth <= 0 else rng.randrange(16)
+    if k == 0:
+        return "@qubit"
+    if k == 1:
+        return "@usize"
+    if k in (2, 3):
+        return ["@unit", rng.choice([0, 1, 2, 2, 3])]
+    if k == 4:
+        return rng.choice([["@var", rng.randint(0, 2), rng.choice(["@C", "@A"])], ["@alias", rng.choice(NAMES), rng.choice(["@C", "@A"])]])
+    if k == 5:
+        return ["@opaque", rng.choice(NAMES), rng.choice(["@C", "@A"]), [], rng.choice(EXTS)]
+    if k == 6:
+        return std_type("int", ["@nat", rng.randint(0, 6)])
+    if k == 7:
+        return rng.choice([std_type("float64"), std_type("string")])
+    if k in (8, 9, 10):
+        return ["@sum", [[gen_vtype(rng, depth - 1) for _ in range(rng.randint(0, 3))] for _ in range(rng.randint(0, 3))]]
+    if k == 11:
+        ins = [gen_vtype(rng, depth - 1) for _ in range(rng.randint(0, 3))]
+        perm = list(range(len(ins)))
+        rng.shuffle(perm)
+        return ["@fn", ins, [ins[i] for i in perm], []]
+    if k == 12:
+        return std_type("array", ["@nat", rng.randint(0, 3)], ["@ty", gen_vtype(rng, depth - 1)])
+    if k == 13:
+        return std_type("list", ["@ty", gen_vtype(rng, depth - 1)])
+    if k == 14:
+        nparams = rng.randint(0, 2)
+        params = [rng.choice([["@ptype", "@A"], ["@pnat", "@none"], "@pstr"]) for _ in range(nparams)]
+        bound = ["@explicit", rng.choice(["@C", "@A"])] if nparams == 0 or rng.random() < 0.5 else ["@from", rng.randrange(nparams)]
+        td = ["@def", rng.choice(EXTS), rng.choice(NAMES), "", params, bound]
+        args = [
+            ["@ty", gen_vtype(rng, depth - 1)] if p != "@pstr" and p[0] == "@ptype" else ["@str", "s"] if p == "@pstr" else ["@nat", rng.randint(0, 9)]
+            for p in params
+        ]
+        return ["@ext", td, args]
+    return ["@opaque", rng.choice(NAMES), rng.choice(["@C", "@A"]), [["@ty", gen_vtype(rng, depth - 1)], ["@nat", 3]][: rng.randint(0, 2)], rng.choice(EXTS)]
+
+
+def _is_std(t, key):
+    return isinstance(t, list) and t[0] == "@ext" and t[1] == std_def(key)[0]
+
+
+def gen_value_of(rng, t, depth=3):
+    """An expression whose value is (meant to be) of type `t`: built with the most specific helper that applies
+    (chosen at random among the applicable ones), extension constants for types without core values."""
+    if isinstance(t, list) and t[0] == "@unit":
+        n = t[1]
+        if n == 0:
+            return ["@vext", "c", t, ["@json", rng.choice(PAYLOADS)], []]
+        tag = rng.randrange(n)
+        r = rng.random()
+        if n == 2 and r < 0.5:
+            return ["@bool", bool(tag)]
+        if n == 1 and r < 0.3:
+            return "@unit"
+        if n == 1 and r < 0.5:
+            return ["@vtuple", []]  # the empty tuple has the unit type (up to the unit-sum identification)
+        if r < 0.8:
+            return ["@unitsum", tag, n]
+        return ["@vsum", tag, rng.choice([t, ["@sum", [[] for _ in range(n)]]]), []]
+    if isinstance(t, list) and t[0] == "@sum":
+        rows = t[1]
+        if not rows:
+            return ["@vext", "c", t, ["@json", rng.choice(PAYLOADS)], []]
+        tag = rng.randrange(len(rows))
+        if depth <= 0:
+            # prefer the shortest row to terminate
+            tag = min(range(len(rows)), key=lambda i: len(rows[i]))
+        fields = [gen_value_of(rng, x, depth - 1) for x in rows[tag]]
+        r = rng.random()
+        if len(rows) == 1 and r < 0.6:
+            return ["@vtuple", fields]
+        if len(rows) == 2 and rows[0] == [] and r < 0.6:
+            return ["@some", fields] if tag == 1 else ["@none", rows[1]]
+        if len(rows) == 2 and r < 0.8:
+            return ["@left", fields, rows[1]] if tag == 0 else ["@right", rows[0], fields]
+        return ["@vsum", tag, t, fields]
+    if _is_std(t, "int"):
+        w = t[2][0][1]
+        return ["@int", rng.choice([0, 1, -1, 5, 2**w, 2 ** (2**w) - 1, -(2**63), 2**70]), w]
+    if _is_std(t, "float64"):
+        return ["@float", rng.choice(FLOATS)]
+    if _is_std(t, "string"):
+        return ["@string", rng.choice(STRINGS)]
+    if _is_std(t, "array"):
+        n, et = t[2][0][1], t[2][1][1]
+        return ["@array", [gen_value_of(rng, et, depth - 1) for _ in range(n)], et]
+    if _is_std(t, "list"):
+        et = t[2][0][1]
+        return ["@list", [gen_value_of(rng, et, depth - 1) for _ in range(rng.randint(0, 3))], et]
+    if _is_std(t, "static_array"):
+        et = t[2][0][1]
+        return ["@sarray", [gen_value_of(rng, et, depth - 1) for _ in range(rng.randint(0, 3))], et, rng.choice(NAMES)]
+    if isinstance(t, list) and t[0] == "@fn" and not t[3]:
+        ins, outs = t[1], t[2]
+        # find a permutation realising outs from ins
+        perm, used = [], set()
+        for o in outs:
+            j = next((i for i, x in enumerate(ins) if x == o and i not in used), None)
+            if j is None:
+                break
+            used.add(j)
+            perm.append(j)
+        else:
+            if len(perm) == len(ins):
+                return ["@fndfg", ins, perm, []]
+    return ["@vext", rng.choice(["c", "Const", "名"]), t, ["@json", rng.choice(PAYLOADS)], [rng.choice(EXTS) for _ in range(rng.randint(0, 2))]]
+
+
+def gen_value(rng, depth=3):
+    """A random constant-building expression: a random constant type, then a value of it.  About one in
+    eight asks for a static array (whose element type must be copyable, else `ValueError`)."""
+    if rng.random() < 0.12:
+        t = std_type("static_array", ["@ty", gen_vtype(rng, depth - 1)])
+    else:
+        t = gen_vtype(rng, depth)
+    return gen_value_of(rng, t, depth)
+
+
+# ----------------------------------------------------------------------------- operations (C06, C05)
+#
+# Op specs mirror lean/HugrVerif/Bridge/Ops.lean:
+#   ["@input", R] | ["@output", R?] | ["@custom", name, SIG, desc, ext, [A…]] | ["@extop", DEF, SIG?, [A…]]
+#   | ["@maketuple", R?] | ["@unpacktuple", R?] | ["@noop", T?] | ["@tag", n, SUM] | ["@dfg", R, R?, [req…]]
+#   | ["@cfg", R, R?] | ["@block", R, SUM?, R?, [req…]] | ["@exit", R?] | ["@const", V] | ["@loadconst", T?]
+#   | ["@cond", SUM, R, R?] | ["@case", R, R?] | ["@tailloop", R, R, R?, [req…]]
+#   | ["@funcdefn", name, R, [P…], R?] | ["@funcdecl", name, POLY] | "@module" | ["@call", POLY, SIG, [A…]]
+#   | ["@callind", SIG?] | ["@loadfunc", POLY, SIG, [A…]] | ["@aliasdecl", name, B] | ["@aliasdefn", name, T]
+# constructor forms: ["@mkcall", POLY, SIG?, [A…]?] | ["@mkloadfunc", …] | ["@some", R] | ["@left", R, R]
+#   | ["@right", R, R] | ["@continue", R, R] | ["@break", R, R]
+# X? ::= "@none" | X;  SUM ::= ["@gsum", [R…]] | ["@usum", n];  SIG = ["@fn", R, R, [req…]];  POLY = ["@poly", …]
+# DEF ::= ["@opdef", "@none"|ext, name, desc, "@none"|POLY];  V = plain value spec (see above).
+
+OP_CTOR_FORMS = ("@mkcall", "@mkloadfunc", "@some", "@left", "@right", "@continue", "@break")
+
+
+def _opt(f, s):
+    return None if s == "@none" else f(s)
+
+
+def _row(s):
+    return [build_type(t) for t in s]
+
+
+def build_sum(s):
+    from hugr import tys
+
+    if s[0] == "@usum":
+        return tys.UnitSum(s[1])
+    return tys.Sum([[build_type(t) for t in r] for r in s[1]])
+
+
+def sum_to_spec(t):
+    from hugr import tys
+
+    if isinstance(t, tys.UnitSum):
+        return ["@usum", t.size]
+    return ["@gsum", [[type_to_spec(x) for x in r] for r in t.variant_rows]]
+
+
+def build_opdef(s):
+    """["@opdef", ext|"@none", name, desc, POLY|"@none"] -> ext.OpDef.  The definition is attached to its
+    extension directly (not through `add_op_def`, which rewrites the requirement list through a `set`)."""
+    from hugr import ext as hext
+
+    _, e, name, desc, poly = s
+    pf = None if poly == "@none" else build_type(poly)
+    od = hext.OpDef(name, hext.OpDefSig(pf, binary=pf is None), desc)
+    if e != "@none":
+        x = hext.Extension(e, hext.Version(0, 1, 0))
+        od._extension = x
+        x.operations[name] = od
+    return od
+
+
+def opdef_to_spec(od):
+    pf = od.signature.poly_func
+    return [
+        "@opdef", od._extension.name if od._extension is not None else "@none", od.name, od.description,
+        "@none" if pf is None else type_to_spec(pf),
+    ]
+
+
+def build_op(s):
+    """Op spec -> the real hugr-py operation object (constructor forms run the real constructor and may raise)."""
+    from hugr import ops
+
+    if s == "@module":
+        return ops.Module()
+    k = s[0]
+    if k == "@input":
+        return ops.Input(_row(s[1]))
+    if k == "@output":
+        return ops.Output(_opt(_row, s[1]))
+    if k == "@custom":
+        return ops.Custom(op_name=s[1], signature=build_type(s[2]), description=s[3], extension=s[4],
+                          args=[build_arg(a) for a in s[5]])
+    if k == "@extop":
+        return ops.ExtOp(build_opdef(s[1]), _opt(build_type, s[2]), [build_arg(a) for a in s[3]])
+    if k == "@maketuple":
+        return ops.MakeTuple(_opt(_row, s[1]))
+    if k == "@unpacktuple":
+        return ops.UnpackTuple(_opt(_row, s[1]))
+    if k == "@noop":
+        return ops.Noop(_opt(build_type, s[1]))
+    if k == "@tag":
+        return ops.Tag(s[1], build_sum(s[2]))
+    if k == "@dfg":
+        return ops.DFG(_row(s[1]), _opt(_row, s[2]), list(s[3]))
+    if k == "@cfg":
+        return ops.CFG(_row(s[1]), _opt(_row, s[2]))
+    if k == "@block":
+        return ops.DataflowBlock(_row(s[1]), _opt(build_sum, s[2]), _opt(_row, s[3]), list(s[4]))
+    if k == "@exit":
+        return ops.ExitBlock(_opt(_row, s[1]))
+    if k == "@const":
+        return ops.Const(build_value(s[1]))
+    if k == "@loadconst":
+        return ops.LoadConst(_opt(build_type, s[1]))
+    if k == "@cond":
+        return ops.Conditional(build_sum(s[1]), _row(s[2]), _opt(_row, s[3]))
+    if k == "@case":
+        return ops.Case(_row(s[1]), _opt(_row, s[2]))
+    if k == "@tailloop":
+        return ops.TailLoop(_row(s[1]), _row(s[2]), _opt(_row, s[3]), list(s[4]))
+    if k == "@funcdefn":
+        return ops.FuncDefn(s[1], _row(s[2]), [build_param(p) for p in s[3]], _opt(_row, s[4]))
+    if k == "@funcdecl":
+        return ops.FuncDecl(s[1], build_type(s[2]))
+    if k in ("@call", "@loadfunc"):
+        # the stored state, bypassing `_CallOrLoad.__init__`
+        cls = ops.Call if k == "@call" else ops.LoadFunc
+        o = cls.__new__(cls)
+        o.signature = build_type(s[1])
+        o.instantiation = build_type(s[2])
+        o.type_args = [build_arg(a) for a in s[3]]
+        return o
+    if k in ("@mkcall", "@mkloadfunc"):
+        cls = ops.Call if k == "@mkcall" else ops.LoadFunc
+        return cls(build_type(s[1]), _opt(build_type, s[2]), _opt(lambda a: [build_arg(x) for x in a], s[3]))
+    if k == "@callind":
+        return ops.CallIndirect(_opt(build_type, s[1]))
+    if k == "@aliasdecl":
+        return ops.AliasDecl(s[1], _mk_b(s[2]))
+    if k == "@aliasdefn":
+        return ops.AliasDefn(s[1], build_type(s[2]))
+    if k == "@some":
+        return ops.Some(*_row(s[1]))
+    if k in ("@left", "@right", "@continue", "@break"):
+        from hugr import tys
+
+        cls = {"@left": ops.Left, "@right": ops.Right, "@continue": ops.Continue, "@break": ops.Break}[k]
+        return cls(tys.Either(_row(s[1]), _row(s[2])))
+    raise ValueError(s)
+
+
+def _orow(r):
+    return "@none" if r is None else [type_to_spec(t) for t in r]
+
+
+def op_to_spec(op):
+    """Real operation object -> spec of its stored state (attribute by attribute; no accessor that checks
+    completeness is used)."""
+    from hugr import ops
+
+    if isinstance(op, ops.Input):
+        return ["@input", _orow(op.types)]
+    if isinstance(op, ops.Output):
+        return ["@output", _orow(op._types)]
+    if isinstance(op, ops.Custom):
+        return ["@custom", op.op_name, type_to_spec(op.signature), op.description, op.extension,
+                [arg_to_spec(a) for a in op.args]]
+    if isinstance(op, ops.ExtOp):
+        return ["@extop", opdef_to_spec(op._op_def),
+                "@none" if op.signature is None else type_to_spec(op.signature), [arg_to_spec(a) for a in op.args]]
+    if isinstance(op, ops.MakeTuple):
+        return ["@maketuple", _orow(op._types)]
+    if isinstance(op, ops.UnpackTuple):
+        return ["@unpacktuple", _orow(op._types)]
+    if isinstance(op, ops.Noop):
+        return ["@noop", "@none" if op._type is None else type_to_spec(op._type)]
+    if isinstance(op, ops.Tag):
+        return ["@tag", op.tag, sum_to_spec(op.sum_ty)]
+    if isinstance(op, ops.DFG):
+        return ["@dfg", _orow(op.inputs), _orow(op._outputs), list(op._extension_delta)]
+    if isinstance(op, ops.CFG):
+        return ["@cfg", _orow(op.inputs), _orow(op._outputs)]
+    if isinstance(op, ops.DataflowBlock):
+        return ["@block", _orow(op.inputs), "@none" if op._sum is None else sum_to_spec(op._sum),
+                _orow(op._other_outputs), list(op.extension_delta)]
+    if isinstance(op, ops.ExitBlock):
+        return ["@exit", _orow(op._cfg_outputs)]
+    if isinstance(op, ops.Const):
+        return ["@const", value_to_spec(op.val)]
+    if isinstance(op, ops.LoadConst):
+        return ["@loadconst", "@none" if op._typ is None else type_to_spec(op._typ)]
+    if isinstance(op, ops.Conditional):
+        return ["@cond", sum_to_spec(op.sum_ty), _orow(op.other_inputs), _orow(op._outputs)]
+    if isinstance(op, ops.Case):
+        return ["@case", _orow(op.inputs), _orow(op._outputs)]
+    if isinstance(op, ops.TailLoop):
+        return ["@tailloop", _orow(op.just_inputs), _orow(op.rest), _orow(op._just_outputs), list(op.extension_delta)]
+    if isinstance(op, ops.FuncDefn):
+        return ["@funcdefn", op.f_name, _orow(op.inputs), [param_to_spec(p) for p in op.params], _orow(op._outputs)]
+    if isinstance(op, ops.FuncDecl):
+        return ["@funcdecl", op.f_name, type_to_spec(op.signature)]
+    if isinstance(op, ops.Module):
+        return "@module"
+    if isinstance(op, (ops.Call, ops.LoadFunc)):
+        return ["@call" if isinstance(op, ops.Call) else "@loadfunc", type_to_spec(op.signature),
+                type_to_spec(op.instantiation), [arg_to_spec(a) for a in op.type_args]]
+    if isinstance(op, ops.CallIndirect):
+        return ["@callind", "@none" if op._signature is None else type_to_spec(op._signature)]
+    if isinstance(op, ops.AliasDecl):
+        return ["@aliasdecl", op.alias, _b(op.bound)]
+    if isinstance(op, ops.AliasDefn):
+        return ["@aliasdefn", op.alias, type_to_spec(op.definition)]
+    raise TypeError(op)
+
+
+def op_to_sx(s):
+    """Op spec -> sexp tree (the value of a `@const` goes through `value_to_sx`)."""
+    if isinstance(s, list) and s and s[0] == "@const":
+        return [A("const"), value_to_sx(s[1])]
+    return spec_to_sx(s)
+
+
+def op_sexp(s) -> str:
+    return dumps(op_to_sx(s))
+
+
+# ---- random operations
+
+OP_NAMES = ["f", "main", "op.x", "é", ""]
+_SIMPLE_VALUES = [
+    ["@vsum", 1, ["@unit", 2], []],
+    ["@vsum", 0, ["@unit", 1], []],
+    ["@vtuple", []],
+    ["@vtuple", [["@vsum", 0, ["@unit", 2], []], ["@vsum", 2, ["@unit", 3], []]]],
+    ["@vsum", 1, ["@sum", [[], [["@unit", 2]]]], [["@vsum", 1, ["@unit", 2], []]]],
+    ["@vsum", 0, ["@sum", [["@usize"], ["@qubit"]]], [["@vext", "ConstUsize", "@usize", ["@json", 7], []]]],
+    ["@vext", "ConstUsize", "@usize", ["@json", 3], ["prelude"]],
+    ["@vext", "c", ["@opaque", "t", "@C", [], "e"], ["@json", {"a": [1, "x"], "b": None}], []],
+    ["@vtuple", [["@vext", "s", ["@opaque", "string", "@C", [], "prelude"], ["@json", "naïve \"q\""], []]]],
+]
+
+
+def gen_reqs(rng):
+    return [rng.choice(EXTS) for _ in range(rng.choice([0, 0, 1, 2]))]
+
+
+def gen_oprow(rng, depth=2, maxlen=3, rowvars=True):
+    """Row for an operation: empty rows, linear types (qubit), row variables."""
+    n = rng.choice([0, 0, 1, 1, 2, 2, 3][: maxlen * 2 + 1])
+    out = []
+    for _ in range(n):
+        r = rng.random()
+        if r < 0.2:
+            out.append("@qubit")
+        elif r < 0.3 and rowvars:
+            out.append(["@rowvar", rng.randint(0, 1), rng.choice(["@C", "@A"])])
+        elif r < 0.4:
+            out.append(["@unit", 2])
+        else:
+            out.append(gen_type(rng, depth))
+    return out
+
+
+def gen_sig(rng, depth=2):
+    return ["@fn", gen_oprow(rng, depth), gen_oprow(rng, depth), gen_reqs(rng)]
+
+
+def gen_poly(rng, depth=2, nparams=None):
+    k = rng.choice([0, 0, 1, 1, 2]) if nparams is None else nparams
+    params = []
+    for _ in range(k):
+        params.append(rng.choice([["@plist", ["@ptype", "@A"]], ["@ptype", "@A"], ["@ptype", "@C"], gen_param(rng, 1)]))
+    return ["@poly", params, gen_oprow(rng, depth), gen_oprow(rng, depth), gen_reqs(rng)]
+
+
+def gen_sum(rng, depth=2):
+    if rng.random() < 0.25:
+        return ["@usum", rng.choice([0, 1, 2, 3])]
+    return ["@gsum", [gen_oprow(rng, depth) for _ in range(rng.choice([0, 1, 2, 2, 3]))]]
+
+
+def gen_args(rng, n=None, depth=2):
+    n = rng.randint(0, 2) if n is None else n
+    return [gen_arg(rng, depth) for _ in range(n)]
+
+
+def gen_plain_value(rng):
+    return rng.choice(_SIMPLE_VALUES)
+
+
+OP_KINDS = [
+    "input", "output", "custom", "extop", "maketuple", "unpacktuple", "noop", "tag", "dfg", "cfg", "block", "exit",
+    "const", "loadconst", "cond", "case", "tailloop", "funcdefn", "funcdecl", "module", "call", "callind", "loadfunc",
+    "aliasdecl", "aliasdefn", "sugar",
+]
+
+
+def gen_op(rng, kind=None, depth=2, partial=0.2, value=None):
+    """Random constructor-form op spec.  `partial`: probability that an optional (`None`-able) field is left unset."""
+    k = kind or rng.choice(OP_KINDS)
+    opt = lambda x: "@none" if rng.random() < partial else x  # noqa: E731
+    row = lambda: gen_oprow(rng, depth)  # noqa: E731
+    if k == "input":
+        return ["@input", row()]
+    if k == "output":
+        return ["@output", opt(row())]
+    if k == "custom":
+        return ["@custom", rng.choice(OP_NAMES), gen_sig(rng, depth), rng.choice(["", "a description", "dé\"sc"]),
+                rng.choice(EXTS + [""]), gen_args(rng)]
+    if k == "extop":
+        poly = "@none" if rng.random() < 0.2 else gen_poly(rng, depth)
+        d = ["@opdef", rng.choice(EXTS + ["@none"]), rng.choice(OP_NAMES), rng.choice(["", "op description"]), poly]
+        return ["@extop", d, "@none" if rng.random() < 0.4 else gen_sig(rng, depth), gen_args(rng)]
+    if k == "maketuple":
+        return ["@maketuple", opt(row())]
+    if k == "unpacktuple":
+        return ["@unpacktuple", opt(row())]
+    if k == "noop":
+        return ["@noop", opt(gen_type(rng, depth))]
+    if k == "tag":
+        s = gen_sum(rng, depth)
+        n = s[1] if s[0] == "@usum" else len(s[1])
+        return ["@tag", rng.randint(0, n - 1) if n and rng.random() < 0.85 else rng.choice([n, n + 1, 0]), s]
+    if k == "dfg":
+        return ["@dfg", row(), opt(row()), gen_reqs(rng)]
+    if k == "cfg":
+        return ["@cfg", row(), opt(row())]
+    if k == "block":
+        return ["@block", row(), opt(gen_sum(rng, depth)), opt(row()), gen_reqs(rng)]
+    if k == "exit":
+        return ["@exit", opt(row())]
+    if k == "const":
+        return ["@const", value if value is not None else gen_plain_value(rng)]
+    if k == "loadconst":
+        return ["@loadconst", opt(gen_type(rng, depth))]
+    if k == "cond":
+        return ["@cond", gen_sum(rng, depth), row(), opt(row())]
+    if k == "case":
+        return ["@case", row(), opt(row())]
+    if k == "tailloop":
+        return ["@tailloop", row(), row(), opt(row()), gen_reqs(rng)]
+    if k == "funcdefn":
+        return ["@funcdefn", rng.choice(OP_NAMES), row(), [gen_param(rng, 1) for _ in range(rng.choice([0, 0, 1, 2]))],
+                opt(row())]
+    if k == "funcdecl":
+        return ["@funcdecl", rng.choice(OP_NAMES), gen_poly(rng, depth)]
+    if k == "module":
+        return "@module"
+    if k in ("call", "loadfunc"):
+        poly = gen_poly(rng, depth)
+        n = len(poly[1])
+        r = rng.random()
+        if n and r < 0.5:
+            # row-variable body whose instantiation changes the arity
+            b = rng.choice(["@A", "@C"])
+            poly = ["@poly", [["@plist", ["@ptype", b]]] + poly[1][1:],
+                    [["@rowvar", 0, b]] + poly[2][:1], [["@rowvar", 0, b]] + poly[3][:1], poly[4]]
+        inst = gen_sig(rng, depth)
+        nargs = n if rng.random() < 0.85 else rng.choice([0, n + 1])
+        args = gen_args(rng, nargs)
+        r = rng.random()
+        form = "@mkcall" if k == "call" else "@mkloadfunc"
+        if r < 0.08:
+            return [form, poly, "@none", args]
+        if r < 0.16:
+            return [form, poly, inst, "@none"]
+        return [form, poly, inst, args]
+    if k == "callind":
+        return ["@callind", opt(gen_sig(rng, depth))]
+    if k == "aliasdecl":
+        return ["@aliasdecl", rng.choice(NAMES), rng.choice(["@C", "@A"])]
+    if k == "aliasdefn":
+        return ["@aliasdefn", rng.choice(NAMES), gen_type(rng, depth)]
+    if k == "sugar":
+        f = rng.choice(["@some", "@left", "@right", "@continue", "@break"])
+        return [f, row()] if f == "@some" else [f, row(), row()]
+    raise ValueError(k)
